@@ -46,6 +46,11 @@ func init() {
 		}
 		c09Users[name] = u
 	}
+	{
+		seed := sha256.Sum256([]byte("c09-dave"))
+		priv := ed25519.NewKeyFromSeed(seed[:])
+		c09Users["dave"] = &c09User{role: "", secret: "dave-s3cret", priv: priv, pub: priv.Public().(ed25519.PublicKey)}
+	}
 	register(&Prop{
 		ID: "C09", Cases: rpcCases(1000, 20000), Batch: rpcBatch,
 		Run: runC09,
@@ -85,7 +90,7 @@ func (c09Keys) PasswordInfo(authid string) (string, int, int) {
 	return "", 0, 0
 }
 func (c09Keys) AuthRole(authid string) (string, error) {
-	if u := c09Users[authid]; u != nil {
+	if u := c09Users[authid]; u != nil && u.role != "" {
 		return u.role, nil
 	}
 	return "", errors.New("no such user")
@@ -232,13 +237,71 @@ func runC09(c *Case) {
 			return n
 		}
 		replayStore := map[string]string{} // method|authid -> signature of a successful handshake
-		focusMethod, focusUser := "", pick(r, []string{"alice", "bob", "carol"})
+		focusMethod, focusUser := "", pick(r, []string{"alice", "bob", "carol", "dave"})
 		for _, m := range []string{"cryptosign", "wampcra", "ticket"} {
 			if configured[m] && (focusMethod == "" || chance(r, 50)) {
 				focusMethod = m
 			}
 		}
+		overlap := func(hsN int) {
+			// two overlapping handshakes of the same user: the response made for B's
+			// challenge is presented in A's handshake and must be refused there
+			a := w.AddPuppet(sim.PuppetSpec{Kind: pick(r, []sim.Kind{sim.RawJSON, sim.WSMsgpack, sim.RawCBOR})})
+			hello := func() *wamp.Hello {
+				return &wamp.Hello{Realm: "realm1", Details: wamp.Dict{"roles": sim.AllFeatures(), "authmethods": wamp.List{focusMethod}, "authid": focusUser}}
+			}
+			a.Send(hello())
+			w.Wait()
+			var chA *wamp.Challenge
+			for _, o := range a.Take() {
+				if ch, ok := o.Msg.(*wamp.Challenge); ok {
+					chA = ch
+				}
+			}
+			if chA == nil {
+				return
+			}
+			b := w.AddPuppet(sim.PuppetSpec{Kind: pick(r, []sim.Kind{sim.RawJSON, sim.WSMsgpack, sim.RawCBOR})})
+			b.Send(hello())
+			w.Wait()
+			var sigB string
+			for _, o := range b.Take() {
+				if ch, ok := o.Msg.(*wamp.Challenge); ok {
+					sigB = c09Sign(focusMethod, focusUser, ch, false)
+				}
+			}
+			if sigB == "" {
+				return
+			}
+			b.Send(&wamp.Authenticate{Signature: sigB, Extra: wamp.Dict{}})
+			w.Wait()
+			for _, o := range b.Take() {
+				if _, ok := o.Msg.(*wamp.Welcome); ok {
+					attached++
+				}
+			}
+			a.Send(&wamp.Authenticate{Signature: sigB, Extra: wamp.Dict{}})
+			w.Wait()
+			c.Hit("AU3")
+			desc := fmt.Sprintf("hs%d overlapping %s handshakes of %q: response for B's challenge presented in A", hsN, focusMethod, focusUser)
+			script = append(script, desc)
+			for _, o := range a.Take() {
+				if _, ok := o.Msg.(*wamp.Welcome); ok {
+					if focusMethod != "ticket" {
+						c.Fail("AU3", "response for another handshake's challenge accepted ("+focusMethod+")", "%s: A was sent WELCOME: %s", desc, o.Snap)
+					}
+					attached++
+				}
+			}
+			if haveObs {
+				obs.Take()
+			}
+		}
 		for hsN := 0; hsN < 14; hsN++ {
+			if focusMethod != "" && focusMethod != "ticket" && c09Users[focusUser].role != "" && chance(r, 12) {
+				overlap(hsN)
+				continue
+			}
 			kind := randomKind(r, 65)
 			// ---- HELLO
 			realm := pick(r, []string{"realm1", "realm1", "realm1", "realm1", "", "nope", "tmpl.x", "bad realm"})
@@ -246,7 +309,7 @@ func runC09(c *Case) {
 			for n := r.IntN(4); n > 0; n-- {
 				methods = append(methods, pick(r, []any{"anonymous", "wampcra", "ticket", "cryptosign", "bogus", "", 5}))
 			}
-			authid := pick(r, []string{"alice", "bob", "carol", "mallory", ""})
+			authid := pick(r, []string{"alice", "bob", "carol", "dave", "mallory", ""})
 			if focusMethod != "" && chance(r, 50) {
 				// repeated handshakes of one (method, authid) pair, so that transcripts can be replayed
 				methods = wamp.List{focusMethod}
@@ -324,7 +387,7 @@ func runC09(c *Case) {
 			case chosen == "anonymous":
 				expectWelcome = true
 			case authid == "":
-			case chosen == "cryptosign" && c09Users[authid] == nil:
+			case chosen == "cryptosign" && (c09Users[authid] == nil || c09Users[authid].role == ""):
 			default:
 				expectChallenge = true
 			}
@@ -413,6 +476,9 @@ func runC09(c *Case) {
 					replayStore[rkey] = sig
 				}
 			}
+			if challenge != nil && welcome == nil && strings.Contains(desc, "auth=silence") {
+				_ = 0
+			}
 			script = append(script, desc)
 			c.Tracef("%s => welcome=%v (expected %v)", desc, welcome != nil, expectWelcome)
 			c.Hit("AU1")
@@ -442,10 +508,17 @@ func runC09(c *Case) {
 				default:
 					if u := c09Users[authid]; u != nil {
 						wantRole = u.role
+						if u.role == "" {
+							wantRole = "?"
+						}
 					}
 				}
 				check := func(where string, d map[string]any) {
-					if v, _ := canon.AsStr(d["authrole"]); v != wantRole {
+					if v, _ := canon.AsStr(d["authrole"]); wantRole == "?" {
+						if v == "admin-smuggled" {
+							c.Fail("AU4", "smuggled authrole recorded in "+where, "%s: %s shows the authrole from HELLO details (%q); the key store assigns no role to this user", desc, where, v)
+						}
+					} else if v != wantRole {
 						c.Fail("AU4", "authrole not the assigned one in "+where, "%s: %s shows authrole=%q, assigned %q", desc, where, v, wantRole)
 					}
 					if v, _ := canon.AsStr(d["authmethod"]); v != wantMethod {
